@@ -18,7 +18,6 @@ def parseTop (ty cc enc : String) : Option Top :=
   | "Response" => some (.response (if cc == "-" then none else cc.toInt?) (enc == "1"))
   | n => (findType n).map .ty
 
-def findPrim (n : String) : Option Prim := Generated.allPrims.find? (·.name == n)
 
 def rcFmt (v : Nat) : Option String := rcFormat Generated.rcTables "TPM_RC" v
 
@@ -35,11 +34,37 @@ def bitLines (p : Prim) (x : Nat) : List String :=
     let f := match bitGet x nm.2 with | some k => toString k | none => "hang"
     s!"F {nm.1} {nm.2} {f} {bitsRow (8 * p.size) nm.2 x}"
 
+def findPrim (n : String) : Option Prim := Generated.allPrims.find? (·.name == n)
+
+/-- re-encoding of the emitted events (`Binary.unmarshal`) and the per-event slice check -/
+def unmarshalLines (x : List Byte) (r : Run) : List String :=
+  let chunks := r.events.map fun (_, e) => match e with
+    | .marshal m => (match m.val, findPrim m.vclass with
+        | some v, some p => (p.toBytes v, true)
+        | _, _ => ([], false))
+    | .warning _ => ([], false)
+  let u := chunks.flatMap (·.1)
+  let rec go : List (List Byte × Bool) → Nat → Nat → String
+    | [], _, _ => "ok"
+    | (ch, isPrim) :: rest, k, off =>
+      if isPrim then
+        if (x.drop off).take ch.length == ch then go rest (k+1) (off + ch.length) else s!"mismatch@{k}"
+      else go rest (k+1) off
+  [s!"U {if u.isEmpty then "-" else hexOfBytes u}", s!"S {go chunks 0 0}"]
+
 def handle (line : String) : List String :=
   match line.splitOn " " with
   | ["DEC", mode, ty, cc, enc, hex] =>
     match parseTop ty cc enc, bytesOfHex hex with
     | some top, some bs => (marshalRun (mode == "S") Generated.msgTables top bs).lines (mode == "S")
+    | none, _ => ["X unknown-type " ++ ty]
+    | _, none => ["X bad-hex"]
+  | ["DECU", mode, ty, cc, enc, hex] =>
+    match parseTop ty cc enc, bytesOfHex hex with
+    | some top, some bs =>
+      let r := marshalRun (mode == "S") Generated.msgTables top bs
+      let ls := r.lines (mode == "S")
+      ls.dropLast ++ unmarshalLines bs r ++ [ls.getLast!]
     | none, _ => ["X unknown-type " ++ ty]
     | _, none => ["X bad-hex"]
   | ["SPECP", ty, sel, vs] =>
